@@ -233,10 +233,16 @@ def run(ctx):
                 check_defect(name, idx, bad, layout, obs,
                              {'file': data, 'defect': name,
                               'section_index': idx, 'mutated': bad})
+    # the specification's reading of one file does not depend on other
+    # readers being at work in the same process
+    common.reader_concurrency_pass(
+        ctx, lambda r: gen_foreign(r)[2], ctx.share(ctx.pick(100, 2500)))
 
 
 def replay(case, obs):
     from mon.oracle import scanner
+    if 'concurrent' in case or 'interleaved' in case:
+        return common.replay_reader_concurrency(case, obs)
     obs.case(None, nontrivial=False)
     data = case['file']
     if 'defect' in case:
